@@ -3,17 +3,20 @@ import sys, json, math
 import numpy as np
 import molli as ml
 
-doc = json.load(open(sys.argv[1])) if sys.argv[1] != "--search" else {"witness": {"op": "search"}}
+BOUNDED = sys.argv[1] == "--bounded"
+doc = json.load(open(sys.argv[1])) if sys.argv[1] not in ("--search", "--bounded") else {"witness": {"op": "search"}}
 w = doc.get("witness") or {}
 bad = []
 CENTRES = {13: "B", 14: "C", 15: "N", 16: "O"}
 
 
-def build(centre, nb, along_z=False, btypes=None, fc=0, spin=0, ntypes=None, neighbour="C"):
+def build(centre, nb, along_z=False, btypes=None, fc=0, spin=0, ntypes=None, neighbour="C", first=None):
     m = ml.Molecule()
     c = ml.Atom(centre, formal_charge=fc, formal_spin=spin)
     m.add_atom(c, [0.1, -0.2, 0.3], 0.0)
     dirs = [[0, 0, 1.4], [1.3, 0.2, -0.4], [-0.7, 1.1, -0.3]] if along_z else [[1.1, 0.3, 0.8], [-1.2, 0.4, 0.1], [0.2, -1.3, 0.2]]
+    if first is not None:
+        dirs = [list(first)] + dirs[1:]
     for j in range(nb):
         a = ml.Atom(neighbour)
         if ntypes and j < len(ntypes) and isinstance(ntypes[j], int):
@@ -71,8 +74,9 @@ def check(m, c, label, default=False):
         cen = np.mean([m.get_atom_coord(x) for x in nbrs], axis=0) - m.get_atom_coord(c)
         if np.linalg.norm(cen) > 0.2:
             for hcoord in m.coords[n0:]:
-                if len(added) == 1 and np.dot(hcoord - m.get_atom_coord(c), cen) >= 0:
-                    bad.append(f"{label}: the new hydrogen points towards the neighbours")
+                if np.dot(hcoord - m.get_atom_coord(c), cen) >= 0:
+                    bad.append(f"{label}: a new hydrogen points towards the neighbours (of {len(added)} added)")
+                    break
     if not np.allclose(m.coords[:n0], coords0, equal_nan=True):
         bad.append(f"{label}: existing coordinates changed")
     n1 = m.n_atoms
@@ -89,6 +93,12 @@ def sweep():
                     m, c = build(centre, nb, along_z=z)
                     m.coords = m.coords * flip          # mirror: both orientations of a pyramidal centre
                     check(m, c, f"{centre}, {nb} neighbours{', first bond along z' if z else ''}{', mirrored' if flip < 0 else ''}")
+        # the single neighbour exactly along an axis, both ways (the placement rotates a reference polyhedron onto the bond direction:
+        # exactly parallel and exactly opposite directions are its degenerate cases)
+        for ax in ([0, 0, 1.5], [0, 0, -1.5], [1.5, 0, 0], [-1.5, 0, 0], [0, 1.5, 0], [0, -1.5, 0], [0.9, 0.9, 0.9], [-0.9, -0.9, -0.9]):
+            m, c = build(centre, 1, first=ax)
+            m.coords = m.coords - m.coords[0]            # the centre at the origin
+            check(m, c, f"{centre}, 1 neighbour exactly along {ax}")
 
 
 if w.get("op") == "mean_plane":
@@ -137,6 +147,17 @@ else:
     sweep()
 if w.get("op") == "count" and not bad:
     sweep()          # one call after another in the same process: nothing a call leaves behind may change the next one
+if BOUNDED:
+    seen, vio = set(), []
+    for b_ in bad:
+        kinds = (("distance", "bond-length"), ("points towards", "direction"), ("hydrogens added", "count"), ("non-finite", "finite-coordinates"),
+                 ("existing coordinates", "frame"), ("second call", "idempotence"), ("without arguments", "default-selection"))
+        sig = "hydrogens/" + next((k2 for k1, k2 in kinds if k1 in b_), "other")
+        if sig not in seen:
+            seen.add(sig)
+            vio.append({"signature": sig, "what": b_})
+    print(json.dumps({"explored": {"centres x neighbourhoods placed one after another in one process": 3 * (16 + 8)}, "violations": vio[:6]}))
+    sys.exit(0)
 if bad:
     if sys.argv[1] == "--search":
         json.dump({"witness": {"op": "search", "signature": "hydrogens"}, "violated": bad[:5]}, open(sys.argv[3], "w"), indent=1)
